@@ -1715,6 +1715,20 @@ impl Connection {
         }
         self.pto_count = self.pto_count.saturating_add(1);
         self.set_loss_detection_timer(now);
+        if self
+            .timers
+            .get(Timer::LossDetection)
+            .is_some_and(|deadline| deadline <= now)
+        {
+            // The timer was overdue by more than a whole probe timeout (it had been armed in the
+            // past, e.g. once the anti-amplification limit was lifted). The deadline derived from
+            // the packets sent so far still lies in the past, but the probes this timeout calls for
+            // have not been sent yet: count it once, and let the next period start now, exactly
+            // where sending the probes will put it.
+            let backoff = 2u32.pow(self.pto_count.min(MAX_BACKOFF_EXPONENT));
+            self.timers
+                .set(Timer::LossDetection, now + self.pto(space) * backoff);
+        }
     }
 
     fn detect_lost_packets(&mut self, now: Instant, pn_space: SpaceId, due_to_ack: bool) {
